@@ -1,4 +1,7 @@
 import Verif.Props.C07
+import Verif.Props.C06
+import Verif.Props.C05
+import Verif.Props.C18
 /-!
 # C09 — accepted input yields syntactically valid output that is accepted again
 
@@ -21,5 +24,18 @@ theorem json_valid_and_reaccepted (o : JsonOpts) (num : List Char → Int → Li
   refine ⟨_, _, h1, rfl, hw1, Verif.Props.C07.parse_render _ hw1 noWs, ?_⟩
   obtain ⟨h2, hw2, _⟩ := Verif.Props.C07.C07_shape o num hg _ hw1 noWs
   exact ⟨_, _, h2, rfl, hw2⟩
+
+/-- **XML**: for every option set and every token stream of the lexer grammar, every emitted token is well-formed
+    (no `<`, no bare `&`, quote-safe attribute literals) and no run of emitted character data contains `]]>`
+    (re-export of C06 `xml_wellformed`, full strength since fix 9a0c504) -/
+theorem xml_output_wellformed : type_of% @Verif.Props.C06.xml_wellformed := @Verif.Props.C06.xml_wellformed
+
+/-- **SVG path data**: for every input string the scanner accepts, the shortened path is valid path data: it lexes and
+    parses to exactly the commands the shortener chose (separator elision never merges or splits tokens) -/
+theorem svg_path_output_parses : type_of% @Verif.Props.C05.shorten_output_parses_of_contract :=
+  @Verif.Props.C05.shorten_output_parses_of_contract
+
+/-- **SVG path printer**: any well-formed group list lexes back to exactly its tokens -/
+theorem svg_path_lex_roundtrip : type_of% @Verif.Props.C05.path_lex_roundtrip := @Verif.Props.C05.path_lex_roundtrip
 
 end Verif.Props.C09
